@@ -23,6 +23,13 @@ def units(tier):
         us.append(Unit(E.ValidationRoundTrip, {'platform': p}))
     for f in ([0, 1, 0x0e, 0x7f] if tier == 'quick' else list(range(128))):
         us.append(Unit(TF.TFRoundTrip, {'flags': f}))
+    # whole images: open what the library wrote and write it again - byte for byte the same (ISO9660, XA, Rock Ridge incl. names and
+    # symbolic links spread over several entries and continuation areas, relocation, Joliet, UDF), file contents symbolic
+    from contracts import fidelity as F
+    for s in sorted(F.SCRIPTS_ALL):
+        us.append(Unit(F.Reopened, {'script': s, 'edit': False}))
+    for s in sorted(F.UDF_SCRIPTS):
+        us.append(Unit(F.ReopenedUDF, {'script': s}))
     return us
 
 
@@ -31,6 +38,7 @@ def canaries(tier):
 
 
 META = {}
+OPTS = {'quick': {'unit_timeout_s': 900}, 'thorough': {'unit_timeout_s': 1800}}
 
 META = {
     'assumptions': [
@@ -38,13 +46,13 @@ META = {
         'strptime / UTF-8 decoding outcome of volume-descriptor dates is uninterpreted (identity-or-canonical-empty is proved for every outcome)',
     ],
     'out_of_reach': [
-        'whole-image fixpoint: needs every structure class (Rock Ridge entries, UDF descriptors, isohybrid/GPT, volume descriptors are not all under round-trip contract yet) plus parse restoring every input of _reshuffle_extents (C02) - not decided',
+        'whole-image fixpoint for EVERY image: decided structure by structure for the classes listed and, end to end, on the scenario images only (El Torito / isohybrid images are covered by their structure round trips, not by a whole-image scenario)',
     ],
-    'bounded': [],
+    'bounded': ['19 whole-image scenarios (14 ISO9660/Joliet/Rock Ridge scripts, 5 UDF scripts): open the written image, write again, byte-identical; file contents symbolic'],
 }
 
 MANIFEST = {
-    'level_text': 'Proof (deductive) of parse/record round trips, structure by structure: DirectoryRecord (record -> parse -> record identity and recovery of the logical entry, all identifier lengths, XA), PathTableRecord, DirectoryRecordDate, VolumeDescriptorDate, El Torito validation entry / entry / boot info table, UDF timestamp, Rock Ridge TF, boot record; parse refusing inconsistent both-endian fields with InvalidISO only.',
-    'level_note': 'Trusted: pyvc, z3, struct model. Only the listed structure classes are covered; the whole-image fixpoint (all classes + layout recomputation) is NOT claimed by this check.',
+    'level_text': 'Proof (deductive) of parse/record round trips, structure by structure: DirectoryRecord (record -> parse -> record identity and recovery of the logical entry, all identifier lengths, XA), PathTableRecord, DirectoryRecordDate, VolumeDescriptorDate, El Torito validation entry / entry / boot info table, UDF timestamp, Rock Ridge TF, boot record; parse refusing inconsistent both-endian fields with InvalidISO only. Plus whole-image fixpoints executed by the verifier on the real code for 19 edit scripts (symbolic contents): ISO9660, XA, Rock Ridge 1.09/1.10/1.12 with multi-entry names and symbolic links ending at and inside component boundaries, continuation areas, relocation, Joliet, UDF.',
+    'level_note': 'Trusted: pyvc, z3, struct model. Structure round trips hold for all inputs; the whole-image fixpoint is bounded to the scenario images.',
     'design_ref': 'DESIGN.md section 4 C05',
 }
